@@ -148,6 +148,8 @@ def anim_case(rng, n, tsb, tracks, order, speed, dels, tags):
         if len(ids) != len(kept) or len(set(ids)) != len(ids) or 0 in ids:
             return ("anim-track-ids", f"AddKeyframes returned ids {ids} for {len(kept)} tracks for {what}")
         g2, _ = G.parse_geom(d, 2)
+        if g2.valid() or any(getattr(a, "short", False) for a in g2.atts):
+            return ("anim-decoded-unreadable", f"the decoded animation is not a structurally valid point cloud ({g2.valid() or 'attribute buffer too small'}) for {what}")
         if g2.num_points != n:
             return ("anim-num-frames", f"{g2.num_points} frames decoded, {n} encoded for {what}")
         if len(g2.atts) != 1 + len(kept):
